@@ -115,6 +115,14 @@ impl LruPageCache {
     
     /// Read data from cache or load it from file
     pub fn read(&self, file_id: FileId, offset: u64, length: usize) -> Result<CacheBuffer> {
+        // Page ids are 32 bit: a file the cache can address ends before page 2^32, so
+        // anything at or beyond that offset is past EOF (and must not wrap to page 0)
+        const ADDRESSABLE: u64 = (PageId::MAX as u64 + 1) * PAGE_SIZE as u64;
+        if offset >= ADDRESSABLE {
+            return Ok(CacheBuffer::new());
+        }
+        let length = std::cmp::min(length as u64, ADDRESSABLE - offset) as usize;
+
         // Calculate which pages we need
         let start_page = FileManager::offset_to_page_id(offset);
         let end_offset = offset + length as u64;
